@@ -77,6 +77,7 @@ type GenCfg struct {
 	VecFields   []fieldProfile
 	Composite   bool
 	CompositeDV bool // the composite field is indexed with doc values
+	FlipOpts    bool // single field instances deviate from the options of their field
 	IDSpace     int
 	MaxToks     int
 	BigVals     bool
@@ -94,6 +95,11 @@ func genTerm(c *Chooser, allowEmpty bool) string {
 		return ""
 	}
 	n := 1 + c.Skewed(3, "term.len")
+	if c.Prob(1, 80, "term.long") {
+		// a term of several hundred bytes (longer than any fixed small buffer, and
+		// with a length that needs two varint bytes)
+		n = 60 + c.Choose(200, "term.longlen")
+	}
 	s := ""
 	for i := 0; i < n; i++ {
 		s += alphabet[c.Choose(len(alphabet), "term.sym")]
@@ -172,6 +178,7 @@ func genCfg(c *Chooser, wantSyn, wantVec bool) *GenCfg {
 		g.Many = true
 	}
 	g.WideNums = c.Prob(1, 5, "cfg.widenums")
+	g.FlipOpts = c.Prob(1, 8, "cfg.flipopts")
 	g.BigVals = c.Prob(1, 10, "cfg.bigvals")
 	g.IDDocVals = c.Prob(1, 8, "cfg.iddocvals")
 	if wantSyn {
@@ -221,6 +228,22 @@ func genAP(c *Chooser) []uint64 {
 }
 
 func genTextField(c *Chooser, p *fieldProfile, g *GenCfg, ap []uint64) FieldSpec {
+	if g.FlipOpts && !p.Shape {
+		// the options are a property of each field instance handed to the builder,
+		// not of the field name: in these worlds single instances deviate from the
+		// field's usual options
+		q := *p
+		if c.Prob(1, 4, "fld.flipstore") {
+			q.Opts ^= index.StoreField
+		}
+		if c.Prob(1, 4, "fld.fliptv") {
+			q.Opts ^= index.IncludeTermVectors
+		}
+		if c.Prob(1, 6, "fld.flipdv") {
+			q.Opts ^= index.DocValues
+		}
+		p = &q
+	}
 	f := FieldSpec{Name: p.Name, Kind: 't', Opts: p.Opts, Typ: "tndb"[c.Choose(4, "fld.typ")], AP: ap}
 	if p.Opts.IsStored() {
 		n := c.Skewed(24, "fld.vlen")
